@@ -645,6 +645,9 @@ package weshnet
 //@   havocall
 //@   stable m != nil && m.group != nil && m.logger != nil
 //@   requires log != nil && unlocked(addr(m.lock))
+//@   # the re-scan starts from nothing remembered about handled entries: what an earlier scan skipped or handled must not
+//@   # decide what this scan sees (the state would depend on how the entries were split across updates)
+//@   loop 0 entry [C04.scan.fresh] forall k Bytes {has(m.handledEvents, k)} :: !has(m.handledEvents, k)
 //@   at (berty.tech/go-ipfs-log/iface.IPFSLogOrderedEntries).Slice requires [C04.scan.log-order] omlen(om) == loglen(caller_log)
 //@        && (forall i {omat(om, i)} :: 0 <= i && i < loglen(caller_log) ==> omat(om, i) == logat(caller_log, i))
 //@ # sets held by the index are sets of keys, not of key objects: no two admins with the same key bytes, whatever
